@@ -339,7 +339,7 @@ def run(ctx):
     # extension: histories in which the cleanup service runs (own generator stream, so
     # that the histories above are the same as without the extension)
     rng2 = random.Random(ctx.seed * 104729 + 5)
-    n_svc = 60 if ctx.quick else 4000
+    n_svc = 60 if ctx.quick else 2500
     for k in range(n_svc):
         jobs.append(('rnd-svc', None, rng2.randrange(2 ** 30), rng2.choice([25, 40]),
                      ('a1', 'a2', 'a3') if k % 3 == 0 else ('a1', 'a2'), 3 if k % 2 else 2,
